@@ -104,7 +104,32 @@ func RunSolo(t *rapid.T, test string) {
 			}
 			typ := rapid.SampledFrom([]tmproto.SignedMsgType{tmproto.PrevoteType, tmproto.PrevoteType, tmproto.PrecommitType}).Draw(t, "typ")
 			id := pickValue(h, "value")
-			mode := rapid.SampledFrom([]string{"all", "all", "subset", "one"}).Draw(t, "who")
+			mode := rapid.SampledFrom([]string{"all", "all", "subset", "one", "almost", "almost"}).Draw(t, "who")
+			if mode == "almost" {
+				// a quorum that stays one vote short: the vote that would complete it is held back and arrives late
+				// (possibly rounds later) - the pattern behind stale-polka bugs
+				vals := net.ValSet()
+				total := vals.TotalVotingPower()
+				var acc int64
+				order := rapid.Permutation(others).Draw(t, "almostOrder")
+				held := false
+				for _, k := range order {
+					_, v := vals.GetByAddress(lib.Key(k).PubKey().Address())
+					p := net.InjectVote(k, typ, h, vr, id, nil)
+					if !held && (acc+v.VotingPower)*3 > total*2 {
+						pending = append(pending, p)
+						held = true
+						continue
+					}
+					if held {
+						pending = append(pending, p)
+						continue
+					}
+					acc += v.VotingPower
+					net.Deliver(p, me)
+				}
+				break
+			}
 			for _, k := range others {
 				if mode == "subset" && !rapid.Bool().Draw(t, "in") {
 					continue
